@@ -75,6 +75,18 @@ CLAIMS = {
          "TLC exhausts the count-min design model (row hash as an unknown function quantified over all functions up to bucket renaming, estimate = row minimum, upper bound formula, cell-wise merge) refining the contract (truth <= estimate <= total, lb <= est <= ub, total = sum of |w|, merge equals a witness sketch fed the concatenated stream, self / incompatible merges refused); recorded histories over rows x buckets x seeds x item types with a witness sketch are validated by TLC; exceedance rate by a seeded verdict; tier-B (learned row hash) reported as drift only",
          "trusted: TLC; the row seeds come from std::default_random_engine, which the documentation does not fix, so the row hash is learned from the trace rather than recomputed",
          TECH, "DESIGN.md 6 C14"),
+ "C17": ("model_checking",
+         "TLC exhausts the t-digest contract (compress as a contiguous coarsening of the sorted centroid / buffer sequence with means inside their runs; merge in both directions) for small constants: weight conservation, exact min / max, sortedness and the centroid bound under every grouping; recorded histories (float and double, merges, reference-format images, serialization with and without buffer) are validated by TLC: total weight, exact extremes, rank and quantile monotone over dense grids and inside [0,1] / [min,max], q(0) = min, q(1) = max, CDF / PMF consistent, invalid queries refused; accuracy (middle vs tails) by a seeded verdict",
+         "trusted: TLC; the scale function is not modelled (contract only, no tier B); monotonicity is judged up to 4 ulps, range clauses are strict",
+         "TLA+ contract model-checked by TLC; trace validation by TLC of recorded executions of the real class against the contract", "DESIGN.md 6 C17"),
+ "C20": ("model_checking",
+         "TLC exhausts the density contract (levels of weight 2^h, every promoted subset at every compaction, merges) for small constants: n exact, retained = number of iterated points, retained <= k * levels, every retained point an input point; recorded histories with an integer-valued user kernel (so the exact-mode estimate is an integer TLC recomputes) and the Gaussian kernel, merges, wrong-dimension updates and serialization are validated by TLC against the contract",
+         "trusted: TLC, the coin hook and override_seed for determinism; one recorded known finding (image with an empty top level does not round-trip, C09)",
+         "TLA+ contract model-checked by TLC; trace validation by TLC of recorded executions of the real class against the contract", "DESIGN.md 6 C20"),
+ "C09": ("exploration",
+         "every family trace driver with serialization events is re-run in its serde-heavy profile (15-20 % Ser / Deser / Wrap events at random points of random histories, followed by the same continued operations on original and restored objects) and every event is validated by TLC against the family's TLA+ contract: restored projection = model value stored with the blob, bytes = stream form, advertised size, h header bytes + same image, stream reader consumed exactly the image, re-serialization reproduces the image; all 16 serializable types incl. compact / updatable HLL, compressed / uncompressed / wrapped Theta, custom serdes, var_opt_union state, t-digest with and without buffer, Bloom in caller memory",
+         "random exploration of the states the family drivers reach; only rejections at serialization events / on restored objects / of C09-named clauses are attributed to this property; one recorded known finding (density empty top level)",
+         "trace validation by TLC of recorded serialization round trips of the real classes against the family TLA+ contracts", "DESIGN.md 6 C09"),
 }
 
 PENDING_REASON = "check not yet built in this round (work in progress; DESIGN.md section 10 build order)"
